@@ -219,6 +219,7 @@ func (n *BaseNode) NextSibling() Node {
 
 // RemoveChild implements Node.RemoveChild .
 func (n *BaseNode) RemoveChild(self, v Node) {
+	verifTrace("remove", n, self, v, nil)
 	if v.Parent() != self {
 		return
 	}
@@ -242,6 +243,7 @@ func (n *BaseNode) RemoveChild(self, v Node) {
 
 // RemoveChildren implements Node.RemoveChildren .
 func (n *BaseNode) RemoveChildren(self Node) {
+	verifTrace("clear", n, self, nil, nil)
 	for c := n.firstChild; c != nil; {
 		c.SetParent(nil)
 		c.SetPreviousSibling(nil)
@@ -256,6 +258,7 @@ func (n *BaseNode) RemoveChildren(self Node) {
 
 // SortChildren implements Node.SortChildren.
 func (n *BaseNode) SortChildren(comparator func(n1, n2 Node) int) {
+	verifTrace("sort", n, nil, nil, nil)
 	var sorted Node
 	current := n.firstChild
 	for current != nil {
@@ -285,6 +288,7 @@ func (n *BaseNode) SortChildren(comparator func(n1, n2 Node) int) {
 	for c := n.firstChild; c != nil; c = c.NextSibling() {
 		n.lastChild = c
 	}
+	verifTrace("sorted", n, nil, nil, nil)
 }
 
 // FirstChild implements Node.FirstChild .
@@ -314,6 +318,7 @@ func (n *BaseNode) SetParent(v Node) {
 
 // AppendChild implements Node.AppendChild .
 func (n *BaseNode) AppendChild(self, v Node) {
+	verifTrace("append", n, self, v, nil)
 	ensureIsolated(v)
 	if n.firstChild == nil {
 		n.firstChild = v
@@ -331,12 +336,14 @@ func (n *BaseNode) AppendChild(self, v Node) {
 
 // ReplaceChild implements Node.ReplaceChild .
 func (n *BaseNode) ReplaceChild(self, v1, insertee Node) {
+	verifTrace("replace", n, self, v1, insertee)
 	n.InsertBefore(self, v1, insertee)
 	n.RemoveChild(self, v1)
 }
 
 // InsertAfter implements Node.InsertAfter .
 func (n *BaseNode) InsertAfter(self, v1, insertee Node) {
+	verifTrace("after", n, self, v1, insertee)
 	if v1 == nil {
 		n.AppendChild(self, insertee)
 		return
@@ -350,6 +357,7 @@ func (n *BaseNode) InsertAfter(self, v1, insertee Node) {
 
 // InsertBefore implements Node.InsertBefore .
 func (n *BaseNode) InsertBefore(self, v1, insertee Node) {
+	verifTrace("before", n, self, v1, insertee)
 	if v1 == nil || v1.Parent() != self {
 		n.AppendChild(self, insertee)
 		return
